@@ -326,6 +326,7 @@ pub fn run_binary(dir: &Path, name: &str, args: &[String], timeout: Duration, me
         cmd.pre_exec(move || {
             let lim = libc::rlimit { rlim_cur: mem_limit, rlim_max: mem_limit };
             libc::setrlimit(libc::RLIMIT_AS, &lim);
+            libc::prctl(libc::PR_SET_PDEATHSIG, libc::SIGKILL);
             Ok(())
         });
     }
